@@ -190,7 +190,8 @@ def generate_bookkeeping(ctx, props):
 
 
 def generate(ctx):
-    generate_bookkeeping(ctx, {"C10", "C01", "C03", "C04", "C05"})
+    # every property that uses the contract IVP at the two call sites in S re-verifies it in its own run
+    generate_bookkeeping(ctx, {"C01", "C02", "C03", "C04", "C05", "C06", "C07", "C10", "C11", "C12", "C15"})
 
 
 # =========================================================================== mode B: Step
@@ -314,5 +315,6 @@ def generate_step(ctx, props):
 
 
 def generate(ctx):  # noqa: F811
-    generate_bookkeeping(ctx, {"C10", "C01", "C03", "C04", "C05"})
+    # every property that uses the contract IVP at the two call sites in S re-verifies it in its own run
+    generate_bookkeeping(ctx, {"C01", "C02", "C03", "C04", "C05", "C06", "C07", "C10", "C11", "C12", "C15"})
     generate_step(ctx, {"C01", "C04", "C05", "C07", "C12"})
